@@ -253,6 +253,20 @@ def scenarios(rng: random.Random, tier: str):
         ce = f"rx 1 " + nodegen.cer("peer2.x", announced[0], hbh[0], 8000 + hbh[0], extra=announced[1])
         out.append(xr + " | start | acc | acc | " + handshake(0, "peer1.x") + " | " + ce + " | " +
                    " | ".join(req(1, "peer2.x", r, a) for r in ("realm.local", "realm.b") for a in (4, 3)))
+    # realm names written with capitals in the configuration, requests naming them the same way
+    xc = ("NODE host=node.local;realm=realm.local;peer:peer1.x,Alpha.NET,0,0,30,1,0,-,-,-,-;"
+          "peer:peer2.x,realm.local,0,0,30,1,0,-,-,-,-;app:4,1,0,b,0,0+1,Roaming.Example")
+    prec = xc + " | start | acc | acc | " + handshake(0, "peer1.x") + " | " + handshake(1, "peer2.x")
+    out.append(prec + " | " + " | ".join(req(c, h, r, a) for c, h in ((0, "peer1.x"), (1, "peer2.x"))
+                                         for r in ("Alpha.NET", "Roaming.Example", "realm.local", "Foreign.Realm") for a in (4, 77)))
+    # a request arriving while the node waits for the answer to its own watchdog request (still a ready connection), and after
+    idl = CFG.replace("NODE ", "NODE idle=5;dwa=30;")
+    for k in (0, 1):
+        hbh[0] += 3
+        out.append(idl + " | start | acc | acc | " + handshake(0, "peer1.x") + " | " + handshake(1, "peer2.x") + " | adv 6 | " +
+                   " | ".join(req(k, f"peer{k + 1}.x", "realm.local", a) for a in (4, 3)) +
+                   f" | rx {k} " + nodegen.dwa(2001 + 1000 * k, 268435464 + k, f"peer{k + 1}.x") + " | " +
+                   " | ".join(req(k, f"peer{k + 1}.x", "realm.local", a) for a in (4, 3)))
     # no peer and no application peer carries the node's own realm: the own realm is served all the same (3007, not 3003)
     xo = ("NODE host=node.local;realm=realm.local;peer:peer1.x,alpha.net,0,0,30,1,0,-,-,-,-;"
           "peer:peer2.x,beta.net,0,0,30,1,1,-,-,-,-;app:4,1,0,b,0,0,roam.net")
